@@ -433,6 +433,17 @@ def run(ctx):
                    (isinstance(n, ast.Attribute) and isinstance(n.ctx, (ast.Store, ast.Del)) and isinstance(n.value, ast.Name) and n.value.id in given) or
                    (isinstance(n, ast.Call) and isinstance(n.func, ast.Attribute) and n.func.attr == 'update' and isinstance(n.func.value, ast.Attribute) and
                     n.func.value.attr == '__dict__' and isinstance(n.func.value.value, ast.Name) and n.func.value.value.id in given)]
+        # every option the registrar accepts by name reaches the parameters object it builds
+        named = [a.arg for a in m_.node.args.args[2:]] + [a.arg for a in m_.node.args.kwonlyargs]
+        ctor_calls = [c_ for c_ in ast.walk(m_.node) if isinstance(c_, ast.Call) and isinstance(c_.func, ast.Name) and c_.func.id == 'RecordingParameters']
+        if named and ctor_calls:
+            passed = {x.id for c_ in ctor_calls for x in ast.walk(c_) if isinstance(x, ast.Name)}
+            dropped_ = [p_ for p_ in named if p_ not in passed]
+            cg.instance('%s hands every named option to RecordingParameters' % m_.name, m_.qualname, not dropped_)
+            if dropped_:
+                res.add(Finding('C17', 'C17.g', 'R-PROV', m_.file, m_.qualname, ctor_calls[0].lineno, 'options %s not passed on' % dropped_,
+                                '%s accepts %s but does not hand %s to the RecordingParameters it builds: the option is silently ignored when given through '
+                                'the keyword form of the decorator' % (m_.name, named, dropped_)))
         cg.instance('%s registers the parameters without writing to the object it was given' % m_.name, m_.qualname, not writes_)
         for n in writes_[:1]:
             res.add(Finding('C17', 'C17.g', 'R-PROV', m_.file, m_.qualname, n.lineno, norm(n)[:80],
